@@ -52,7 +52,7 @@ pub fn gen_items(t: &mut Tape, allow_quote_escape: bool) -> (Vec<Item>, HashMap<
         };
         let depth = t.urange(0, 5);
         let e = g.gen(t, ty, depth);
-        let expect = eval(&e, &Env { vars: &env });
+        let expect = eval(&e, &Env::of(&env));
         items.push(Item { min: print(&e, false), full: print(&e, true), e, expect });
     }
     (items, env, src)
@@ -109,7 +109,7 @@ impl Property for C05 {
         if !allow_quote && items.iter().any(|i| i.min.contains("\\\"")) {
             ctx.excluded.push("escaped-quote".into());
         }
-        let envr = Env { vars: &env };
+        let envr = Env::of(&env);
         ctx.evals += items.len() as u64;
         let mut h = 0u64;
         for it in &items {
